@@ -150,6 +150,7 @@ def mat_features(m):
         "parity": G.par(sym, ucharge(spec.get("charge", jcharge(G.zero(sym))))),
         "post": [r[0] for r in m.get("post", ())],
         "sparse": spec.get("sectors", "all") != "all",
+        "mixed_block_dtypes": bool(spec.get("mixed_block_dtypes")),
     }
 
 
